@@ -367,13 +367,18 @@ class _GitFile(IO[bytes]):
         """
         if self._closed:
             return
-        self._file.close()
         try:
-            os.remove(self._lockfilename)
-            self._closed = True
-        except FileNotFoundError:
-            # The file may have been removed already, which is ok.
-            self._closed = True
+            self._file.close()
+        finally:
+            # Release the lock even if closing the descriptor failed (e.g.
+            # buffered data that cannot be written out).
+            try:
+                os.remove(self._lockfilename)
+            except FileNotFoundError:
+                # The file may have been removed already, which is ok.
+                pass
+            finally:
+                self._closed = True
 
     def close(self) -> None:
         """Close this file, saving the lockfile over the original.
@@ -390,14 +395,14 @@ class _GitFile(IO[bytes]):
         """
         if self._closed:
             return
-        self._file.flush()
-        if self._fsync:
-            os.fsync(self._file.fileno())
-        self._file.close()
-        # Adjust before the rename, so the file is never visible at the
-        # final path with the wrong permissions.
-        adjust_shared_perm(self._lockfilename, self._shared_perm)
         try:
+            self._file.flush()
+            if self._fsync:
+                os.fsync(self._file.fileno())
+            self._file.close()
+            # Adjust before the rename, so the file is never visible at the
+            # final path with the wrong permissions.
+            adjust_shared_perm(self._lockfilename, self._shared_perm)
             if getattr(os, "replace", None) is not None:
                 os.replace(self._lockfilename, self._filename)
             else:
@@ -407,8 +412,13 @@ class _GitFile(IO[bytes]):
                     # Windows versions prior to Vista don't support atomic
                     # renames
                     _fancy_rename(self._lockfilename, self._filename)
-        finally:
+        except BaseException:
+            # Nothing was installed: give the lock back.
             self.abort()
+            raise
+        # The lock file has become the target.  It must not be removed
+        # again: by now the path may be a lock taken by somebody else.
+        self._closed = True
 
     def __del__(self) -> None:
         if not getattr(self, "_closed", True):
